@@ -218,6 +218,24 @@ func bvCheckV2Result(w *bvWorld, r *bvV2Result, sfx string) (string, []c05Fail) 
 		}
 		return "other", false
 	}
+	// an output asked for twice (in one call or by two parties) is outside the property: the second
+	// set of commitments overwrites the first while both were accounted for
+	reqs := make([]int, len(sh.Outs))
+	for _, p := range sh.Parties {
+		for _, j := range p.Outs {
+			if int(j) < len(reqs) {
+				reqs[j]++
+			}
+		}
+	}
+	for _, c := range reqs {
+		if c > 1 {
+			if len(pre) > 0 {
+				return "", pre
+			}
+			return "SKIP output-requested-twice", nil
+		}
+	}
 	// every confidential input must be owned by exactly one party, else the request itself is invalid
 	cnt := make([]int, len(sh.Ins))
 	for _, p := range sh.Parties {
